@@ -179,9 +179,39 @@ def root_and_form(n, decls=None):
         return None, None, None
 
 
-def region_info(par):
+def _calls_in(n):
+    out = []
+    for c in find_all(n, {"CallExpr"}, []):
+        nm = callee_name(c)
+        if nm and nm.startswith("omp_get_"):
+            out.append(nm)
+    return sorted(set(out))
+
+
+def value_calls(expr, decls_inside, func_doc):
+    """(omp_get_* calls the value of `expr` comes from, evaluated inside the region?) following one variable"""
+    if expr is None:
+        return [], True
+    direct = _calls_in(expr)
+    if direct:
+        return direct, True
+    refs = find_all(expr, {"DeclRefExpr"}, [])
+    if len(refs) != 1:
+        return [], True
+    did = refs[0].get("referencedDecl", {}).get("id")
+    if did in decls_inside:
+        return _calls_in(decls_inside[did]), True
+    if func_doc is not None:
+        for d in find_all(func_doc, {"VarDecl"}, []):
+            if d.get("id") == did and inner(d):
+                return _calls_in(d), False
+    return [], False
+
+
+def region_info(par, func_doc=None):
     """(private names, set of (var, crit, form) of stores to variables declared outside the region, has critical)"""
     kind = par.get("kind")
+    region_info.manual = None
     decls = {}
     for d in find_all(par, {"VarDecl"}, []):
         if d.get("id") not in decls or inner(d):
@@ -207,6 +237,27 @@ def region_info(par):
             fs = find_all(fd, {"ForStmt"}, [])
             if fs:
                 body_roots.append(fs[0])
+        if not body_roots and cs:
+            # no worksharing construct: a hand-made schedule  for (v = first; v < n; v += step)  at the top level
+            for st in inner(cs[0]):
+                if st.get("kind") == "ForStmt":
+                    parts = inner(st)
+                    inc = parts[3] if len(parts) >= 5 else None
+                    if inc is not None and inc.get("kind") == "CompoundAssignOperator" and inc.get("opcode") == "+=" \
+                            and len(inner(inc)) == 2:
+                        body_roots.append(st)
+                        init = parts[0]
+                        first = inner(init)[1] if init.get("kind") == "BinaryOperator" and len(inner(init)) == 2 else (
+                            inner(inner(init)[0])[0] if init.get("kind") == "DeclStmt" and inner(init) and inner(inner(init)[0]) else None)
+                        region_info.manual = {"first": value_calls(first, decls, func_doc),
+                                              "step": value_calls(inner(inc)[1], decls, func_doc)}
+                        # everything declared at the top level of the region is thread-private
+                        for st2 in inner(cs[0]):
+                            if st2.get("kind") == "DeclStmt":
+                                for d in inner(st2):
+                                    if d.get("kind") == "VarDecl" and d.get("name") not in privs:
+                                        privs.append(d.get("name"))
+                        break
     else:
         fs = find_all(par, {"ForStmt"}, [])
         if fs:
@@ -405,9 +456,14 @@ def clang_regions(repo, fname, header, extra_defs=()):
             # of classes / class templates are CXXMethodDecl
             if doc.get("kind") not in ("FunctionTemplateDecl", "FunctionDecl", "CXXMethodDecl") or doc.get("name") != fname:
                 continue
-            for par in find_all(doc, {"OMPParallelDirective", "OMPParallelForDirective"}, [],
-                                stop=("OMPParallelDirective", "OMPParallelForDirective")):
-                privs, stores, has_crit, ivs, accesses = region_info(par)
+            for par in find_all(doc, {"OMPParallelDirective", "OMPParallelForDirective", "OMPForDirective",
+                                      "OMPSectionsDirective", "OMPSingleDirective"}, [],
+                                stop=("OMPParallelDirective", "OMPParallelForDirective", "OMPForDirective",
+                                      "OMPSectionsDirective", "OMPSingleDirective")):
+                # a worksharing directive met here is NOT inside a parallel directive of this function: orphaned
+                orphan = par.get("kind") in ("OMPForDirective", "OMPSectionsDirective", "OMPSingleDirective")
+                privs, stores, has_crit, ivs, accesses = region_info(par, doc)
+                manual = region_info.manual
                 # clang-14's JSON dump does not name the kind of a clause: clauses with an expression (private, if,
                 # reduction, num_threads ...) are read from the text dump
                 unnamed = [c for c in inner(par) if c.get("kind") is None and
@@ -425,7 +481,21 @@ def clang_regions(repo, fname, header, extra_defs=()):
                     accesses = [w for w in accesses if json.loads(w)[0] not in clause_priv]
                     if dir_clauses is not None and len(regs) < len(dir_clauses):
                         if_atoms = dir_clauses[len(regs)].get("If", [])
-                regs.append((privs, stores, has_crit, ivs, accesses, if_atoms))
+                has_ws = bool(find_all(par, {"OMPForDirective"}, [])) or par.get("kind") == "OMPParallelForDirective"
+                if orphan:
+                    dist = ["DWorkshare", False]
+                elif has_ws:
+                    dist = ["DWorkshare", True]
+                elif manual is not None:
+                    fc, fin = manual["first"]
+                    sc, sin = manual["step"]
+                    dist = ["DCyclic", "FirstTid" if fc == ["omp_get_thread_num"] and fin else "FirstOther",
+                            ["SrcTeam"] if sc == ["omp_get_num_threads"] and sin else
+                            ["SrcOutside"] if sc == ["omp_get_num_threads"] else
+                            ["SrcMaxThreads"] if sc == ["omp_get_max_threads"] else ["Src?"]]
+                else:
+                    dist = ["DUnknown"]
+                regs.append((privs, stores, has_crit, ivs, accesses, if_atoms, dist))
         return regs, None
     finally:
         shutil.rmtree(tmp, ignore_errors=True)
@@ -463,7 +533,12 @@ def compare(repo, tr=None):
             if len(cl) != len(regs):
                 out.append("%s: clang sees %d parallel region(s), the translator %d" % (tag, len(cl), len(regs)))
                 continue
-            for k, (r, (privs, stores, has_crit, ivs, accesses, if_atoms)) in enumerate(zip(regs, cl)):
+            for k, (r, (privs, stores, has_crit, ivs, accesses, if_atoms, cdist)) in enumerate(zip(regs, cl)):
+                tdist = r.get("dist") or ["DUnknown"]
+                same = (tdist == cdist) or (tdist[0] == "DCyclic" and cdist[0] == "DCyclic" and tdist[1] == cdist[1] and (
+                    tdist[2][0] == cdist[2][0] or (cdist[2][0] == "Src?" and tdist[2][0] in ("SrcConst", "SrcUnknown"))))
+                if not same:
+                    out.append("%s#%d: who runs the iterations: clang %s, translator %s" % (tag, k + 1, cdist, tdist))
                 if sorted(r.get("if_atoms") or []) != sorted(if_atoms):
                     out.append("%s#%d: `if` clause of the parallel directive: clang %s, translator %s" % (
                         tag, k + 1, sorted(if_atoms), sorted(r.get("if_atoms") or [])))
